@@ -1,4 +1,5 @@
 import DaskModel.Lemmas.LocList
+import DaskModel.Lemmas.LocListLower
 import DaskModel.Lemmas.TruthfulPaths
 /-!
 C41 extension — `.loc[[labels]]` (`LocList`) and `.loc[scalar]` (`LocElement`) keep known divisions truthful.
@@ -83,6 +84,12 @@ theorem route_label_outside (divs : List Nat) (d0 dl v : Nat) (hs : divs.Pairwis
   · intro hge
     have : divs.length - 1 < bisectRight divs v := (lt_bisectRight_iff hs v _ dl hl).mpr hge
     unfold partitionOf; omega
+
+/-- **the loop is the closed form**: `for val in values: results[partition_of(val)].append(val)` followed by
+    `sorted(results.items())` (`routeLoop`, the transliteration) equals `routeItems`, which the theorems use -/
+theorem route_loop_is_closed_form (divs labels : List Nat) (h2 : 2 ≤ divs.length) :
+    routeLoop divs labels = routeItems divs labels :=
+  routeLoop_eq_routeItems divs labels h2
 
 /-! ### `LocList`: reported divisions -/
 
@@ -334,6 +341,58 @@ theorem loc_list_outside_raises {α : Type} (key : α → Nat) (divs : List Nat)
     · have : j + 1 = divs.length - 1 := by omega
       simp [this]
   rcases h2' with h3 | ⟨_, h3⟩ <;> omega
+
+/-! ### `LocList._lower` -/
+
+/-- **lowering does not re-route**: `LocList._lower` selects exactly the partitions that received a label, and the
+    lowered expression — which routes the labels AGAIN, by the divisions `Partitions._divisions` reports for the
+    selection — sends every label to the position of its original partition: item `j` is `(j, labels of item j)`. -/
+theorem loc_list_lower_routing (divs labels sel d' : List Nat) (items' : List (Nat × List Nat))
+    (hs : divs.Pairwise (· ≤ ·)) (h2 : 2 ≤ divs.length) (hne : labels ≠ [])
+    (h : locListLowered divs labels = some (sel, d', items')) :
+    sel = (routeItems divs labels).map (·.1) ∧ partitionsDivs divs sel = some d' ∧
+    items'.length = (routeItems divs labels).length ∧
+    ∀ (j : Nat) (e : Nat × List Nat), (routeItems divs labels)[j]? = some e → items'[j]? = some (j, e.2) :=
+  lowered_items hs h2 hne h
+
+/-- **the lowered graph computes what the unlowered one does and reports the same divisions** -/
+theorem loc_list_lower_same_result {α : Type} (key : α → Nat) (divs : List Nat) (parts parts' : List (List α))
+    (labels sel d' : List Nat) (items' : List (Nat × List Nat))
+    (hs : divs.Pairwise (· ≤ ·)) (h2 : 2 ≤ divs.length) (hne : labels ≠ [])
+    (h : locListLowered divs labels = some (sel, d', items')) (hp : partitionsParts parts sel = some parts') :
+    locListDivs items' = locListDivs (routeItems divs labels) ∧
+    locListParts key parts' items' = locListParts key parts (routeItems divs labels) := by
+  obtain ⟨hsel, _, hlen, hget⟩ := lowered_items hs h2 hne h
+  constructor
+  · apply locListDivs_congr
+    apply List.ext_getElem?
+    intro j
+    rw [List.getElem?_map, List.getElem?_map]
+    cases hj : (routeItems divs labels)[j]? with
+    | none =>
+      have : items'[j]? = none := by
+        rw [List.getElem?_eq_none_iff] at hj ⊢; omega
+      rw [this]
+    | some e => rw [hget j e hj]; rfl
+  · unfold locListParts
+    congr 1
+    apply List.ext_getElem?
+    intro j
+    rw [List.getElem?_map, List.getElem?_map]
+    cases hj : (routeItems divs labels)[j]? with
+    | none =>
+      have : items'[j]? = none := by
+        rw [List.getElem?_eq_none_iff] at hj ⊢; omega
+      rw [this]; rfl
+    | some e =>
+      rw [hget j e hj, Option.map_some, Option.map_some]
+      congr 1
+      have hsj : sel[j]? = some e.1 := by
+        rw [hsel, List.getElem?_map, hj]; rfl
+      unfold partitionsParts at hp
+      obtain ⟨_, hpget⟩ := mapM_getElem? _ sel parts' hp
+      obtain ⟨y, hy, hpy⟩ := hpget j e.1 hsj
+      simp only [hy, hpy]
 
 /-! ### `LocElement` -/
 
